@@ -138,8 +138,7 @@ fn deserialize<'a>(ty: &OwnedDataModelType, data: &'a [u8]) -> Result<(Value, &'
             let val = Value::Number(Number::from_f64(f).right()?);
             Ok((val, rest))
         }
-        OwnedDataModelType::Char => todo!(),
-        OwnedDataModelType::String => {
+        OwnedDataModelType::String | OwnedDataModelType::Char => {
             let (val, rest) = try_take_varint_usize(data)?;
             let (bytes, rest) = rest.take_n(val)?;
             let s = from_utf8(bytes).map_err(|_| Error::SchemaMismatch)?;
@@ -292,7 +291,7 @@ fn deserialize<'a>(ty: &OwnedDataModelType, data: &'a [u8]) -> Result<(Value, &'
                 }
             }
         }
-        OwnedDataModelType::Schema => todo!(),
+        OwnedDataModelType::Schema => Err(Error::ShouldSupportButDont),
     }
 }
 
